@@ -194,6 +194,19 @@ HOOK_COMMITS = subprocess.run(["git", "-C", "/repo", "log", "--reverse", "--form
 PENDING_REASON = "check not built yet in this build session; planned (DESIGN.md §5)"
 
 
+RECORDED = ("; plus trace validation of recorded executions of the real code (the repository's own test suite and scenario programs run with the "
+            "ASPHALT_VERIF_HOOKS=trace hook): every recorded context operation is replayed as the Ctx.tla action by TLC (specs/Trace_CtxSuite.tla) "
+            "and results, events, the tables of all contexts, the current context per task and what component contexts delegate are compared")
+EXTRA = {
+    "C01": RECORDED, "C02": RECORDED, "C03": RECORDED, "C04": RECORDED + "; race family Race.tla incl. cancellation of the generating lookup", "C06": RECORDED,
+    "C08": RECORDED, "C12": RECORDED, "C13": RECORDED, "C18": RECORDED,
+    "C14": RECORDED + "; plus the operators of specs/Plugins.tla (resolve_reference, PluginContainer.resolve/create_object) as oracle for naming a type",
+    "C10": "; a second bounded graph with bursts of dispatches (receiver in transit until the burst settles); static delivery rows for copied instances",
+    "C11": "; a second bounded graph with bursts of dispatches; static rows (identity over subscription cycles, address reuse, name-mangled signals, Context signals over the life cycle)",
+    "C19": "; the Race.tla family executed through one shared decorated coroutine function and the Startup.tla look-up family through decorated functions inside components, each pair also with explicit lookups (differential); differential rows for factories that raise",
+}
+
+
 def main():
     checks = []
     for pid in ALL:
@@ -209,7 +222,7 @@ def main():
             "engine": "tlc",
             "level_claimed": {"category": "model_checking", "text": c["text"], "design_ref": c["design_ref"]},
             "level_note": c["note"],
-            "technique": c["technique"],
+            "technique": c["technique"] + EXTRA.get(pid, ""),
         })
     man = {
         "version": 1,
